@@ -231,10 +231,11 @@ class ContractMixin:
         nfr = Frame(dict(fr.env), fr.globs, fr.qualname, fr.closure)
         nfr.assigned_names = getattr(fr, 'assigned_names', set())
         ex = self.ex
-        ex.solver.push()
+        pass
         npc = len(ex.st.pc)
         nobl = len(self.obligations)
         ex.nofork += 1
+        facts = dict(ex.st.cls_facts)
         try:
             self.assign(g.target, xv, nfr)
             conds = []
@@ -249,7 +250,7 @@ class ContractMixin:
         finally:
             ex.nofork -= 1
             del ex.st.pc[npc:]
-            ex.solver.pop()
+            ex.st.cls_facts = facts
         new_obls = self.obligations[nobl:]
         if new_obls:
             raise Untranslatable(f'comprehension body with proof obligations at {fr.qualname}:{node.lineno}')
@@ -262,11 +263,13 @@ class ContractMixin:
         filt = z3.And(*conds) if conds else None
         f, caps = self.comp_function(body, filt, x, ety, rty)
         res = f(seq.term, *caps)
+        comp_meta = (body, filt, x, ety, rty, seq.term)
         if extra:
             j = z3.Int(ex.fresh_name('j'))
             fact = z3.substitute(z3.And(*extra), (x, seq.term[j]))
             ex.assume(z3.ForAll([j], z3.Implies(z3.And(j >= 0, j < z3.Length(seq.term)), fact)))
         out = SV(res, TSeq(rty))
+        out.meta = ('comp',) + comp_meta
         if kind == 'list':
             return Box('list', term=out.term, elem=rty)
         return out
@@ -306,6 +309,42 @@ class ContractMixin:
             _AUX_COMP[key] = f
         return _AUX_COMP[key], caps
 
+    def fused_fold(self, is_any, meta):
+        """any(...)/all(...) over a comprehension as ONE recursive function (map and fold fused):
+        any_k(s, caps) = len(s) > 0 and (body(s[0]) or any_k(s[1:], caps))"""
+        _, body, filt, x, ety, rty, seqterm = meta
+        terms = [body] + ([filt] if filt is not None else [])
+        caps = []
+        seen = set()
+        for t in terms:
+            for v in z3util.get_vars(t):
+                if v.eq(x) or v.get_id() in seen:
+                    continue
+                seen.add(v.get_id())
+                caps.append(v)
+        caps.sort(key=lambda v: str(v))
+        ph = [z3.Const(f'cap!{i}!{c.sort()}', c.sort()) for i, c in enumerate(caps)]
+        px = z3.Const(f'elem!{ety.z3sort()}', ety.z3sort())
+        sub = [(c, p) for c, p in zip(caps, ph)] + [(x, px)]
+        nbody = z3.substitute(body, *sub)
+        nfilt = z3.substitute(filt, *sub) if filt is not None else None
+        key = ('fold', is_any, nbody.sexpr(), nfilt.sexpr() if nfilt is not None else None, str(ety.z3sort()))
+        if key not in _AUX_COMP:
+            name = f'{"any" if is_any else "all"}{len(_AUX_COMP)}'
+            ssort = z3.SeqSort(ety.z3sort())
+            f = z3.RecFunction(name, ssort, *[p.sort() for p in ph], z3.BoolSort())
+            s = z3.Const('s', ssort)
+            n = z3.Length(s)
+            hb = z3.substitute(nbody, (px, s[0]))
+            rest = f(z3.SubSeq(s, 1, n - 1), *ph)
+            if nfilt is not None:
+                hf = z3.substitute(nfilt, (px, s[0]))
+                hb = z3.And(hf, hb) if is_any else z3.Implies(hf, hb)
+            step = z3.Or(hb, rest) if is_any else z3.And(hb, rest)
+            z3.RecAddDefinition(f, [s] + ph, z3.If(n == 0, z3.BoolVal(not is_any), step))
+            _AUX_COMP[key] = f
+        return _AUX_COMP[key](seqterm, *caps)
+
     # ------------------------------------------------------------------ heap effects (W2)
     def effect_write(self, target: SV, name, value, fr, node):
         sort = target.ty.sort
@@ -325,5 +364,5 @@ class ContractMixin:
         if not target.fresh:
             self.ex.st.inexact.append('in-place narrowing of a pre-existing object not proved a no-op')
         # reference semantics: every alias of this python-level value sees the new field
-        target.term = z3.simplify(self.ct.with_common(sort, target.term, name, new))
+        target.term = self.ct.with_common(sort, target.term, name, new)
         return None
